@@ -1,6 +1,6 @@
 (* Properties/C16.v — vocabulary handling matches a naive model.
    Statements only; each closed by `exact <lemma>` with Print Assumptions. *)
-From LLG Require Import Base Params Svob SvobProofs Trie TrieProofs.
+From LLG Require Import Base Params Svob SvobProofs Trie TrieProofs Tokenizers TokenizersProofs.
 
 (* The set of tokens the trie walk reports for a byte-level acceptor equals the
    set found by testing each token separately (every vocabulary: duplicates,
@@ -106,3 +106,36 @@ Example C16_walk_example :
   | None => False
   end.
 Proof. vm_compute. repeat split; reflexivity. Qed.
+
+(* ---- vocabularies loaded from tokenizer descriptions ---- *)
+(* byte-level tokenizer.json: with the self-mapped ranges read from the adapter's source the
+   alphabet is a bijection between the 256 bytes and the code points of vocabulary entries *)
+Fixpoint nodupb (l : list N) : bool :=
+  match l with [] => true | x :: r => negb (existsb (N.eqb x) r) && nodupb r end.
+Lemma nodupb_sound : forall l, nodupb l = true -> NoDup l.
+Proof.
+  induction l as [|x r IH]; intros H; constructor; cbn [nodupb] in H; apply andb_prop in H; destruct H as [H1 H2].
+  - intros Hin. apply negb_true_iff in H1. assert (E : existsb (N.eqb x) r = true).
+    { apply existsb_exists. exists x. split; [exact Hin | apply N.eqb_refl]. }
+    congruence.
+  - now apply IH.
+Qed.
+Lemma alphabet_chars_distinct : NoDup (map fst (char_map SELF_MAPPED_RANGES)).
+Proof. apply nodupb_sound. vm_compute. reflexivity. Qed.
+
+(* every byte string has a spelling, and the entry spelled so stands for exactly that string *)
+Theorem C16_byte_level_entry_bytes : forall w, Forall (fun b => b < 256) w ->
+  decode_byte_level SELF_MAPPED_RANGES (encode_byte_level SELF_MAPPED_RANGES w) = Some w.
+Proof. exact (decode_encode SELF_MAPPED_RANGES alphabet_chars_distinct). Qed.
+Print Assumptions C16_byte_level_entry_bytes.
+
+(* the spelling is unique: two different entries never stand for the same bytes *)
+Theorem C16_byte_level_spelling_unique : forall cs w,
+  decode_byte_level SELF_MAPPED_RANGES cs = Some w -> cs = encode_byte_level SELF_MAPPED_RANGES w.
+Proof. exact (decode_unique SELF_MAPPED_RANGES). Qed.
+Print Assumptions C16_byte_level_spelling_unique.
+
+(* byte-fallback tokenizer.json: the entry <0xNN> is the byte NN *)
+Theorem C16_byte_fallback_hex : forall sp b, b < 256 -> byte_fallback_bytes sp (hex_name b) = FOk [b].
+Proof. exact byte_fallback_hex. Qed.
+Print Assumptions C16_byte_fallback_hex.
